@@ -5,6 +5,7 @@ import (
 	"go/ast"
 	"go/token"
 	"go/types"
+	"golang.org/x/tools/go/ssa"
 	"sort"
 
 	"golang.org/x/tools/go/packages"
@@ -269,7 +270,7 @@ func seeThrough(f *fn, e ast.Expr) ast.Expr {
 			return ast.Unparen(e)
 		}
 		v, ok := f.Info.Uses[id].(*types.Var)
-		if !ok || v.IsField() || v.Parent() == nil || v.Parent() == v.Pkg().Scope() {
+		if !ok || v.IsField() || (v.Pkg() != nil && v.Parent() == v.Pkg().Scope()) { // (absorbed helpers' variables have no scope)
 			return id
 		}
 		def := singleDef(f, v)
@@ -279,7 +280,7 @@ func seeThrough(f *fn, e ast.Expr) ast.Expr {
 		stable := true
 		ast.Inspect(def, func(n ast.Node) bool {
 			if x, ok := n.(*ast.Ident); ok {
-				if o, ok := f.Info.Uses[x].(*types.Var); ok && !o.IsField() && o.Parent() != nil && o.Parent() != o.Pkg().Scope() {
+				if o, ok := f.Info.Uses[x].(*types.Var); ok && !o.IsField() && (o.Pkg() == nil || o.Parent() != o.Pkg().Scope()) {
 					if assignCount(f, o) > 1 {
 						stable = false
 					}
@@ -368,4 +369,19 @@ func singleDef(f *fn, v *types.Var) ast.Expr {
 		return true
 	})
 	return def
+}
+
+// nameOf is the name the rules know an object by: the baseline name for a function or field that
+// was renamed consistently (core/rename.go), otherwise its own.
+func nameOf(o types.Object) string { return core.CanonName(o) }
+
+// ssaName is nameOf for an SSA function.
+func ssaName(fn *ssa.Function) string {
+	if fn == nil {
+		return ""
+	}
+	if o := fn.Object(); o != nil {
+		return core.CanonName(o)
+	}
+	return fn.Name()
 }
